@@ -78,7 +78,7 @@ theorem reported_score_unit_interval (E : Env) (q : Str) (rs : List MR) (h : rec
 /-- NEGATIVE (extractor-internal, never reported): `match_value` itself can leave `[0, 1]`, because
 `StringUtility.index_of` answers `1` for "not found": `match_value(['a'], ['x','x','x'], 0) = 5.8`
 (replayed on the implementation by the correspondence, recorded in the evidence). -/
-theorem match_value_can_exceed_one :
+theorem matchValue_can_exceed_one :
     matchValue [[97]] [[120], [120], [120]] 0 = some ⟨174, 30⟩ ∧ (174 : Int) > 30 := by decide
 
 /-- the rewrite of the regenerated TrueRegex text: surrogate pairs become the code point they encode -/
